@@ -142,14 +142,27 @@ let sem_problem_wt ~(strict : bool) (e : Sexp.t) : Sexp.t =
   | _ -> bad "sem_problem_wt: %s" (to_string e)
 
 (* sem_chain (C12): input ((raw d) ("text" ..)).  In each implementation text: every
-   symbol_order_i axiom must be TRUE in the standard structure (symbolic constants denote
-   themselves), the axioms must form a chain a1 < a2, a2 < a3, .. and the chain must contain every
-   declared symbolic constant (type_symbol_i). *)
-let sem_chain (e : Sexp.t) : Sexp.t =
+   symbol_order_i axiom must be TRUE in the standard structure for the printed names (symbolic
+   constants denote themselves: C12_chain_true), the axioms must form a chain a1 < a2, a2 < a3, ..
+   and the chain must contain every declared symbolic constant (type_symbol_i).
+   Moreover (audit A2) every axiom must be true for the constants the printed names STAND FOR: a
+   constant s of the raw problem that equals a 0-ary predicate of it is printed `s__s`
+   (rename_conflicting_symbols); the axiom `x < y` is judged for all constants s1, s2 of the raw
+   problem printed as x, y.  [sem_chain_all] reports every such axiom that is false
+   (C12_chain_refuted_after_rename: findings F8c / F8b); the regular [sem_chain] excuses exactly the
+   recorded class - an axiom one of whose two constants was renamed by rename_conflicting_symbols -
+   and reports everything else. *)
+let sem_chain_gen ~(all : bool) (e : Sexp.t) : Sexp.t =
   match e with
   | L [ L [ p; d ]; L texts ] ->
     let raw = problem p in
     let models = model_pipeline raw (decomposition d) in
+    let pre = M.Problem.add_annotated_formulas (M.Problem.with_name raw.M.Problem.pb_name) raw.M.Problem.pb_formulas in
+    let preds0 = List.filter (fun (q : M.Fol.pred) -> Conv.int_of_nat q.M.Fol.parity = 0) (M.Problem.problem_predicates pre) in
+    let originals = M.Problem.problem_symbols pre in
+    let is_renamed s = List.exists (fun (q : M.Fol.pred) -> q.M.Fol.psym = s) preds0 in
+    let printed s = if is_renamed s then s @ cl_of_string "__s" else s in
+    let denoted x = List.filter (fun s -> printed s = x) originals in
     let count = ref 0 in
     let result = ref None in
     let fail i what = if !result = None then result := Some (L [ A "cex"; L [ A "problem"; A (string_of_int i) ]; what ]) in
@@ -177,7 +190,13 @@ let sem_chain (e : Sexp.t) : Sexp.t =
                 incr count;
                 if not (compare (str_of x) (str_of y) < 0) then
                   fail i (L [ A "symbol-order-axiom-false-in-the-standard-interpretation"; S (str_of a.M.Tff.n_name);
-                              S (str_of x); S (str_of y) ])) chain pairs;
+                              S (str_of x); S (str_of y) ]);
+                (* ... and for the constants the printed names stand for *)
+                List.iter (fun s1 -> List.iter (fun s2 ->
+                    if not (compare (str_of s1) (str_of s2) < 0) && (all || not (is_renamed s1 || is_renamed s2)) then
+                      fail i (L [ A "symbol-order-axiom-false-for-the-constants-the-printed-names-stand-for";
+                                  S (str_of a.M.Tff.n_name); L [ A "printed"; S (str_of x); S (str_of y) ];
+                                  L [ A "stand-for"; S (str_of s1); S (str_of s2) ] ])) (denoted y)) (denoted x)) chain pairs;
             let rec linked = function (_, b) :: ((c, _) :: _ as r) -> b = c && linked r | _ -> true in
             if not (linked pairs) then fail i (L [ A "symbol-order-axioms-do-not-form-a-chain" ]);
             let mentioned = List.concat_map (fun (a, b) -> [ a; b ]) pairs in
@@ -187,6 +206,8 @@ let sem_chain (e : Sexp.t) : Sexp.t =
           end) texts;
     (match !result with Some r -> r | None -> L [ A "ok"; A (string_of_int !count) ])
   | _ -> bad "sem_chain: %s" (to_string e)
+let sem_chain = sem_chain_gen ~all:false
+let sem_chain_all = sem_chain_gen ~all:true
 
 (* sem_transition (C12): input ((L R) (theory f..)) = the implementation's transition axioms.
    Each must be true in merge(H,T) for every H subset-of T sampled over ground atoms of the
@@ -291,6 +312,7 @@ let () =
   Ops.register "sem_problem_wt" (sem_problem_wt ~strict:false);
   Ops.register "sem_problem_wt_strict" (sem_problem_wt ~strict:true);
   Ops.register "sem_chain" sem_chain;
+  Ops.register "sem_chain_all" sem_chain_all;
   Ops.register "sem_transition" sem_transition;
   Ops.register "strong_transition" strong_transition;
   Ops.register "tptp_format" (fun e -> of_string_result (M.TptpPrint.tptp_format (formula e)));
